@@ -347,5 +347,19 @@ def run(tier: str, seed: int) -> Report:
 
 
 def replay(path: str) -> int:
-    print("replay: re-run ./check C06 with the same tier/seed (scenarios are deterministic)")
+    """Scenarios are deterministic functions of (tier, seed): re-run that enumeration against the current tree
+    and report whether the recorded violation signatures still occur."""
+    import json as _json
+
+    from harness import common as _common
+
+    data = _json.loads(open(path).read())
+    rep = run(data.get("tier", "quick"), int(data.get("seed", 0)))
+    want = {(v["clause"], _json.dumps(v["sig"], sort_keys=True)) for v in data.get("violations", [])}
+    got = {(v.clause, _json.dumps(v.sig, sort_keys=True)) for v in rep.violations}
+    still = want & got
+    print(f"replay: {len(still)} of {len(want)} recorded violation signatures reproduce on the current tree")
+    if still:
+        print(f"VIOLATION property={rep.property_id} replay={path}")
+        return 1
     return 0
